@@ -1,4 +1,5 @@
 import Driver.C04
+import Driver.C14_Msp430Reg
 import Driver.C20Files
 import Driver.C03Avl
 import Driver.C11_Args
@@ -61,6 +62,7 @@ partial def loop (h : IO.FS.Stream) (out : IO.FS.Stream) (f : String → String)
   loop h out f
 
 def modes : List (String × (String → String)) := [
+  ("c14reg", C14Reg.handle),
   ("c20m", C20Files.handle),
   ("c03avl", C03Avl.handle),
   ("c11arg", C11Args.handle),
